@@ -168,6 +168,22 @@ type KV struct {
 
 func NewCore(init []KV, alias bool) *Core {
 	c := &Core{alias: alias}
+	// build the first version in one go (repeated put would copy the slice per pair)
+	sorted := true
+	for i := 1; i < len(init); i++ {
+		if init[i-1].K >= init[i].K {
+			sorted = false
+			break
+		}
+	}
+	if sorted {
+		ps := make([]pair, len(init))
+		for i, kv := range init {
+			ps[i] = mkPair([]byte(kv.K), []byte(kv.V))
+		}
+		c.cur = ps
+		return c
+	}
 	for _, kv := range init {
 		c.put([]byte(kv.K), []byte(kv.V))
 	}
